@@ -130,3 +130,111 @@ def _check_one(led, fn):
         else:
             led.fail(nm, func, {'outcomes': [o[0] for _, o in r2]}, signature='nonsquare')
         led.solver_time('z3-feasibility', it.solver_time)
+
+
+def check_remove_null_cols(led):
+    _remove_null_cols(led)
+
+
+def remove_null_cols_or_standin(led):
+    """proof; bounded run-time stand-in if the function is rewritten outside the abstract-array model"""
+    from ..core import CheckerError
+    from ..parallel import Rec
+    rec = Rec(getattr(led, 'tier', 'quick'), getattr(led, 'known', ()))
+    try:
+        _remove_null_cols(rec)
+    except CheckerError as e:
+        from . import sparse_standin
+        led.bounded_item('compmech/sparse.py remove_null_cols: outside the abstract-array model (%s); bounded run-time stand-in used instead' % str(e)[:120])
+        sparse_standin.check(led, ['remove_null_cols'])
+        return
+    rec.replay_into(led)
+    led.assume('remove_null_cols proof: csr_matrix(x) keeps the matrix, m.nonzero() lists the positions of the non-zero entries, np.unique sorts and '
+               'removes duplicates, fancy indexing with an index vector takes those rows / columns in order; the first matrix is symmetric')
+
+
+def _remove_null_cols(led):
+    """compmech/sparse.py:remove_null_cols executed on abstract matrices: for every argument X_i the result is X_i[U, :][:, U] with
+    U = unique(column indices of the stored non-zeros of X_0), and U is returned last -- the definition behind the contract
+    ('restrict', X_i, X_0) / ('used_cols', X_0) that the eigen-wrapper checks (C05, C06, C07) use.
+    Trusted numpy / scipy semantics: csr_matrix(x) keeps the matrix; m.nonzero() lists the positions of the non-zero entries; np.unique
+    sorts and removes duplicates; fancy indexing with an index vector takes those rows / columns in order."""
+    from .. import absnp
+    from ..absnp import AArr, fresh_int
+    from ..pysym import compare
+    func = SP + 'remove_null_cols'
+    led.function(func)
+    for nargs, as_csr in ((1, True), (2, True), (3, False)):
+        it = Interp()
+        shims.install(it)
+        absnp.install(it)
+        n = integer('size')
+        it.facts += [to_z3(n) >= 1]
+
+        class CsrT(object):
+            def __init__(self, csr):
+                self.csr = csr
+
+            def sym_isinstance(self, interp, o):
+                return isinstance(o, AArr) and self.csr
+
+            def __call__(self, x):
+                return x
+        csr_t = CsrT(as_csr)
+        it.contracts['scipy.sparse.csr_matrix'] = lambda itp, a, kw: a[0]
+        it.shims['scipy.sparse.csr_matrix'] = csr_t
+        it.contracts['compmech.logger.log'] = lambda itp, a, kw: None
+
+        def nonzero_of(arr):
+            def f():
+                nnz = fresh_int('nnz', 0, None, it)
+                return (AArr((nnz,), ('nz-rows', arr.term), 'int'), AArr((nnz,), ('nz-cols', arr.term), 'int'))
+            return f
+        old_getattr = AArr.sym_getattr
+
+        def patched(self, itp, name):
+            if name == 'nonzero':
+                return nonzero_of(self)
+            return old_getattr(self, itp, name)
+        AArr.sym_getattr = patched
+
+        def unique(x):
+            nu = fresh_int('n_used', 0, None, it)
+            it.path.conds.append(compare('<=', nu, n))
+            return AArr((nu,), ('unique', x.term), 'int')
+        it.np.unique = unique
+        f = it.module('compmech.sparse').g['remove_null_cols']
+        mats = [AArr((n, n), 'X%d' % k) for k in range(nargs)]
+        try:
+            res = it.explore(lambda: it.call(f, list(mats), dict(silent=True)))
+        finally:
+            AArr.sym_getattr = old_getattr
+        tag = '%d matrices,%s' % (nargs, 'csr input' if as_csr else 'other sparse input')
+        for path, out in res:
+            name = '%s[%s]' % (func, tag)
+            if out[0] != 'return':
+                led.fail(name + '/no-exception', func, {'raises': out[1].tname, 'message': [str(a)[:120] for a in out[1].eargs]}, signature='raise')
+                continue
+            r = out[1]
+            probs = []
+            U = ('unique', ('nz-cols', 'X0'))
+            # the first matrix is symmetric (precondition stated in the function's docstring and by C05/C06): its non-null rows are its
+            # non-null columns, so an index set taken from the row indices is the same set
+            if isinstance(r, list) and r and isinstance(r[-1], AArr) and r[-1].term == ('unique', ('nz-rows', 'X0')):
+                U = ('unique', ('nz-rows', 'X0'))
+            if not isinstance(r, list) or len(r) != nargs + 1:
+                probs.append('returns %r' % (type(r).__name__,))
+            else:
+                for k, m in enumerate(r[:-1]):
+                    want = ('index', ('index', 'X%d' % k, (('take', U), 'all')), ('all', ('take', U)))
+                    if not isinstance(m, AArr) or m.term != want:
+                        probs.append('matrix %d is %r, expected X%d[U, :][:, U]' % (k, getattr(m, 'term', m), k))
+                    elif len(m.shape) != 2 or not all(normal(d - r[-1].shape[0]).is_zero() for d in m.shape):
+                        probs.append('matrix %d has shape %s' % (k, [str(d) for d in m.shape]))
+                if not isinstance(r[-1], AArr) or r[-1].term != U:
+                    probs.append('last result is %r, expected U = unique(columns of the non-zeros of the first matrix)' % (getattr(r[-1], 'term', r[-1]),))
+            if probs:
+                led.fail(name, func, {'differences': probs}, signature=';'.join(probs)[:120])
+            else:
+                led.ok(name, func)
+        led.solver_time('z3-feasibility', it.solver_time)
